@@ -357,7 +357,7 @@ func SCTPAnswer(a Args) error {
 	}
 	// deferred answers: the request arrives on stream s; it is answered - with retries, the first write
 	// attempt failing temporarily - only after a message on another stream has been read
-	for _, stream := range []uint16{0, 1, 7, 15, 16, 40, 65535} {
+	for si, stream := range []uint16{0, 1, 7, 15, 16, 40, 65535} {
 		as := sctpmem.New()
 		as.FailWrite = func(k int) bool { return k%2 == 1 }
 		mux := diam.NewServeMux()
@@ -375,7 +375,18 @@ func SCTPAnswer(a Args) error {
 			pend = m
 		})
 		conn := diam.NewSCTPConnVerif(as)
-		diam.NewConn(conn, "10.0.0.2:3868", mux, vp)
+		via := "sctp-deferred"
+		if si%2 == 1 {
+			// an association accepted by a Server with a WriteTimeout: the timeout bounds writes, it does not
+			// choose the stream
+			via = "sctp-deferred-wt"
+			pl := newPipeListener()
+			defer pl.Close()
+			go (&diam.Server{Handler: mux, Dict: vp, WriteTimeout: 500 * time.Millisecond}).Serve(pl)
+			pl.ch <- conn
+		} else {
+			diam.NewConn(conn, "10.0.0.2:3868", mux, vp)
+		}
 		for _, h := range ids {
 			for _, e := range ids {
 				nout := len(as.Out())
@@ -390,7 +401,7 @@ func SCTPAnswer(a Args) error {
 				}
 				as.WaitReaderBlocked(time.Second)
 				id++
-				l := ansLine{Ev: "answer", ID: id, Via: "sctp-deferred", Req: ansHdr{Flags: 0xC0, Cmd: abs.B3(abs.VCmd), App: abs.B4(abs.VApp), HbH: abs.B4(h), E2E: abs.B4(e)}, RC: int(e % 2 * 2001), Stream: int(stream),
+				l := ansLine{Ev: "answer", ID: id, Via: via, Req: ansHdr{Flags: 0xC0, Cmd: abs.B3(abs.VCmd), App: abs.B4(abs.VApp), HbH: abs.B4(h), E2E: abs.B4(e)}, RC: int(e % 2 * 2001), Stream: int(stream),
 					Ans: ansObs{Hdr: ansHdr{Cmd: []int{0, 0, 0}, App: []int{0, 0, 0, 0}, HbH: []int{0, 0, 0, 0}, E2E: []int{0, 0, 0, 0}}, First: ansFirst{Sem: []int{}}, Stream: -1}}
 				if o := as.Out(); len(o) > nout {
 					msgs, _ := splitMsgs(o[nout].Data)
